@@ -35,6 +35,9 @@ FUNCS = {
     "crypto_onetimeauth/poly1305/donna/poly1305_donna32.h": ["poly1305_init", "poly1305_blocks", "poly1305_finish"],
     "include/sodium/private/common.h": ["load64_le", "store64_le", "load32_le", "store32_le", "load64_be", "store64_be", "load32_be", "store32_be"],
     "crypto_scalarmult/curve25519/sandy2x/curve25519_sandy2x.c": ["crypto_scalarmult_curve25519_sandy2x"],
+    "crypto_sign/ed25519/ref10/keypair.c": ["crypto_sign_ed25519_seed_keypair"],
+    "crypto_sign/ed25519/ref10/sign.c": ["_crypto_sign_ed25519_ref10_hinit", "_crypto_sign_ed25519_detached"],
+    "crypto_sign/ed25519/ref10/open.c": ["_crypto_sign_ed25519_verify_detached"],
     "crypto_scalarmult/curve25519/ref10/x25519_ref10.c": ["crypto_scalarmult_curve25519_ref10", "has_small_order"],
 }
 # whole files (macro headers that are #included into a function body, generic code instantiated by several backends): name "*"
@@ -53,7 +56,7 @@ WHOLE = {
             "crypto_stream/salsa20/xmm6int/u0.h", "crypto_stream/salsa20/xmm6int/u1.h", "crypto_stream/salsa20/xmm6int/u4.h", "crypto_stream/salsa20/xmm6int/u8.h",
             "crypto_stream/salsa20/xmm6int/salsa20_xmm6int-sse2.c", "crypto_stream/salsa20/xmm6int/salsa20_xmm6int-avx2.c"],
 }
-OWNER = {"fe25519_sqmul": "C07", "fe25519_cneg": "C07", "fe25519_abs": "C07", "fe25519_unchecked_sqrt": "C07", "fe25519_sqrt": "C07", "fe25519_notsquare": "C07", "fe25519_reduce64": "C07",
+OWNER = {"crypto_sign_ed25519": "C06", "_crypto_sign_ed25519": "C06", "fe25519_sqmul": "C07", "fe25519_cneg": "C07", "fe25519_abs": "C07", "fe25519_unchecked_sqrt": "C07", "fe25519_sqrt": "C07", "fe25519_notsquare": "C07", "fe25519_reduce64": "C07",
          "ge25519_mont_to_ed": "C07", "ge25519_xmont_to_ymont": "C07", "ge25519_clear_cofactor": "C07", "ge25519_elligator2": "C07", "ge25519_from_uniform": "C07", "ge25519_from_hash": "C07",
          "ristretto255": "C07", "crypto_core_ed25519_from_uniform": "C07", "crypto_core_ed25519_random": "C07", "load_block": "C08", "store_block": "C08", "argon2_": "C08", "init_block_value": "C08", "copy_block": "C08", "xor_block": "C08", "index_alpha": "C08",
          "crypto_pwhash_scryptsalsa208sha256_ll": "C08", "poly1305": "C04", "fe25519_pow22523": "C06", "fe25519": "C05", "crypto_scalarmult": "C05", "has_small_order": "C05", "ge25519": "C06", "slide_vartime": "C06",
